@@ -39,6 +39,8 @@ Decided (DESIGN.md section 5, C15):
      I3-handle-discipline             handle_type's value constructor is private; add_item takes the offset after a possible collection
                                       and before the buffer grows, pushes it, returns handle{index.size()}; lookups use value - 1;
                                       clear resets buffer, index and both counters
+     I4-no-stale-buffer-offset        no local that holds Buffer::committed() / written() of the stash buffer is used after a call that
+                                      (transitively) reaches Buffer::purge_removed / clear on the same path (garbage_collect relocates items)
 
 Not decided (moved to "not decided"): model equivalence over operation histories; the m_data[cid] access in
 IdSetDenseIterator::next (bounded by the iterator invariant m_value < m_last, not by a dominating test); should_gc() heuristic;
@@ -1194,6 +1196,53 @@ def itemstash_rules(fb, R):
         parts = [c1, c2, z[live], z[removed]]
         ok = all(parts) and all(U.must_pass(fn, fn.entry, [p[0]['id']]) is None for p in parts)
         R.check(ok, r3, fn.q + '#resets-buffer-index-and-counters', fn.site, 'clear() must clear the buffer and the index and zero both counters')
+    # ---- I4 no buffer position survives a compaction (STALE idea applied to offsets)
+    r4 = 'I4-no-stale-buffer-offset'
+    POSITIONS = ('osmium::memory::Buffer::committed', 'osmium::memory::Buffer::written')
+    COMPACTORS = ('osmium::memory::Buffer::purge_removed', 'osmium::memory::Buffer::clear')
+    reach_memo = {}
+
+    def compacts(f, n):
+        """call node that (transitively) compacts / empties the stash buffer."""
+        if n.get('k') != 'call' or 'q' not in n:
+            return False
+        if n['q'] in COMPACTORS:
+            return f.is_this_member(n.get('recv'), buf_f)
+        if n.get('rcls') != ITEMSTASH:
+            return False
+        g = U._callee_for(fb, f, n)
+        if g is None or not g.has_cfg:
+            return False
+        if g.usr not in reach_memo:
+            reach_memo[g.usr] = bool(set(COMPACTORS) & fb.callees_closure(g, depth=4))
+        return reach_memo[g.usr]
+    for fn in fns:
+        holders = {}     # local decl id -> decl node: locals initialised from a buffer position
+        for n in fn.all_nodes():
+            if n.get('k') == 'decl':
+                for v in n['vars']:
+                    if isinstance(v.get('init'), int) and any(fn.nodes[x].get('k') == 'call' and fn.nodes[x].get('q') in POSITIONS
+                                                               and fn.is_this_member(fn.nodes[x].get('recv'), buf_f) for x in fn.subtree(v['init'])):
+                        holders[v['d']] = n
+        comp = [n for n in fn.all_nodes() if compacts(fn, n)]
+        if not holders:
+            continue
+        for d, decl in holders.items():
+            uses = [n['id'] for n in fn.all_nodes() if n.get('k') == 'var' and n.get('d') == d and n['id'] not in fn.subtree(decl['id'])]
+            pos = fn.positions()
+            useset = {u for u in uses if u in pos}
+            w = None
+            for c in comp:
+                # position read, then compaction, then use of the stale position
+                if path_search(fn, decl['id'], lambda e: e == c['id'], lambda e: False) is None:
+                    continue
+                w = path_search(fn, c['id'], lambda e: not isinstance(e, tuple) and (e in useset or any(x in useset for x in fn.subtree(e))), lambda e: False)
+                if w is not None:
+                    w = [decl['id'], c['id']] + w
+                    break
+            R.check(w is None, r4, fn.q + '#buffer-position-not-used-after-compaction', fn.loc(decl['id']),
+                    '%s reads a buffer position, then (possibly) compacts the buffer and uses the stale position afterwards (the offset recorded for the '
+                    'item no longer points at it): %s' % (fn.q, describe_path(fn, w)))
     for need in ('add_item', 'get_item_offset', 'clear'):
         if not byname.get(need):
             R.broken('ItemStash::%s not found' % need)
@@ -1230,6 +1279,7 @@ def run(ctx):
     R.expect('I1-remove-pairs-updates', 4)
     R.expect('I2-gc-rewrites-index', 5)
     R.expect('I3-handle-discipline', 7)
+    R.expect('I4-no-stale-buffer-offset', 1)       # add_item (the only method holding a buffer position in a local)
 
 
 def _selftest_sets(fb, R):
@@ -1243,4 +1293,4 @@ SELFTESTS = [(r, 'c15_sets.cpp', _selftest_sets) for r in (
     'A1-idset-bit-tiling', 'A2-idset-end-sentinel', 'A3-idset-iterator-skips', 'A4-idset-chunk-access-guarded',
     'A5-idset-size-tracks-bit-flips', 'A6-idset-copy-keeps-chunk-slots', 'S1-search-key-prefix-of-sort-key', 'S2-sort-unique-erase',
     'R1-builders-hand-out-sorted-maps', 'R2-merge-appends-every-element', 'R3-narrow-store-guarded', 'R4-index-dispatch',
-    'I1-remove-pairs-updates', 'I2-gc-rewrites-index', 'I3-handle-discipline')]
+    'I1-remove-pairs-updates', 'I2-gc-rewrites-index', 'I3-handle-discipline', 'I4-no-stale-buffer-offset')]
